@@ -17,7 +17,8 @@ Local Open Scope string_scope.
 (* ------------------------------------------------------------------ bound strings of the table *)
 Inductive bexpr :=
 | BStart | BStop | BLit (z : Z)
-| BAdd (a b : bexpr) | BSub (a b : bexpr) | BMul (a b : bexpr) | BNeg (a : bexpr).
+| BAdd (a b : bexpr) | BSub (a b : bexpr) | BMul (a b : bexpr) | BNeg (a : bexpr)
+| BDiv (a b : bexpr).          (* Fortran integer division: truncation toward zero *)
 
 Fixpoint eval_b (start stop : Z) (e : bexpr) : Z :=
   match e with
@@ -26,6 +27,7 @@ Fixpoint eval_b (start stop : Z) (e : bexpr) : Z :=
   | BSub a b => eval_b start stop a - eval_b start stop b
   | BMul a b => eval_b start stop a * eval_b start stop b
   | BNeg a => - eval_b start stop a
+  | BDiv a b => Z.quot (eval_b start stop a) (eval_b start stop b)
   end.
 
 Fixpoint bexpr_eqb (a b : bexpr) : bool :=
@@ -36,6 +38,7 @@ Fixpoint bexpr_eqb (a b : bexpr) : bool :=
   | BSub a1 a2, BSub b1 b2 => bexpr_eqb a1 b1 && bexpr_eqb a2 b2
   | BMul a1 a2, BMul b1 b2 => bexpr_eqb a1 b1 && bexpr_eqb a2 b2
   | BNeg a1, BNeg b1 => bexpr_eqb a1 b1
+  | BDiv a1 a2, BDiv b1 b2 => bexpr_eqb a1 b1 && bexpr_eqb a2 b2
   | _, _ => false
   end.
 
@@ -151,7 +154,7 @@ Inductive gexpr :=
 | GFld (f : nat) (r : regk) (d : dim) (s : side)       (* f%internal%xstart ... f%whole%ystop *)
 | GGridStop (f : nat) (d : dim)                        (* f%grid%subdomain%internal%{x,y}stop, also istop/jstop *)
 | GSize (f : nat) (d : dim)                            (* SIZE(f%data, 1|2) *)
-| GAdd (a b : gexpr) | GSub (a b : gexpr) | GMul (a b : gexpr) | GNeg (a : gexpr).
+| GAdd (a b : gexpr) | GSub (a b : gexpr) | GMul (a b : gexpr) | GNeg (a : gexpr) | GDiv (a b : gexpr).
 
 (* a grid (index offset, internal stop indices) and the grid-point type of every field argument;
    all fields of an invoke live on this one grid *)
@@ -168,6 +171,7 @@ Fixpoint eval_g (lib : libm) (en : env) (e : gexpr) : Z :=
   | GSub a b => eval_g lib en a - eval_g lib en b
   | GMul a b => eval_g lib en a * eval_g lib en b
   | GNeg a => - eval_g lib en a
+  | GDiv a b => Z.quot (eval_g lib en a) (eval_g lib en b)
   end.
 
 (* bound string with start='2', stop=<stop expression> *)
@@ -178,6 +182,7 @@ Fixpoint subst_b (e : bexpr) (stop : gexpr) : gexpr :=
   | BSub a b => GSub (subst_b a stop) (subst_b b stop)
   | BMul a b => GMul (subst_b a stop) (subst_b b stop)
   | BNeg a => GNeg (subst_b a stop)
+  | BDiv a b => GDiv (subst_b a stop) (subst_b b stop)
   end.
 
 (* ------------------------------------------------------------------ the PSy-layer schedule *)
